@@ -1,5 +1,6 @@
 """Binding between RpmsManifest.tla behaviours and the real productmd.rpms.Rpms."""
 import json
+import zlib
 
 NAMESETS = [
     {"b1": "foo-bar-1:2.3-4.el7.x86_64", "d1": "foo-bar-debuginfo-1:2.3-4.el7.x86_64", "b2": "lib3-devel-0:1.0.0-1.fc22.noarch",
@@ -212,6 +213,15 @@ def cycle(m, exp, attr, focus):
         fails.append("file cannot be read into the object that built it: %s: %s" % (type(exc).__name__, exc))
     if text != json.dumps(json.loads(text), indent=4, sort_keys=True, separators=(",", ": ")):
         fails.append("dump is not canonical JSON (sorted keys, indent 4)")
+    if not fails and zlib.crc32(text.encode("utf-8")) % 3 == 0:
+        # the same cycle through real files: fresh path, a path holding a longer file, an open file object
+        from . import core
+
+        def reload(src):
+            o = type(m)()
+            o.load(src)
+            return o.dumps()
+        fails += core.file_cycle(m, text, "manifest", attr + ".json", reload=reload)
     return fails
 
 
